@@ -369,8 +369,15 @@ func planWriterCases(w *cq.Writer, rng *rand.Rand, runs, nbatches int) error {
 					}
 				}
 				if input == nil {
-					w.Count("writer_plan_input_not_identified_skipped", 1)
-					continue
+					// never seen on the unchanged tree: the planner was given something else than the persisted
+					// segments of a recent root; the case is emitted with the latest root and will not check
+					w.Count("writer_plan_input_not_identified", 1)
+					input = roots[len(roots)-1]
+					for _, sg := range input {
+						if sg.persisted {
+							np++
+						}
+					}
 				}
 				ts := make([]string, len(tasks))
 				for k, t := range tasks {
@@ -384,4 +391,69 @@ func planWriterCases(w *cq.Writer, rng *rand.Rand, runs, nbatches int) error {
 		}
 	}
 	return nil
+}
+
+// planHistoryIndependence: "the tasks are the same for the same input" also when other inputs were planned in
+// between with the SAME *Options value (or with nil options, i.e. the package default): plan(B), plan(A),
+// plan(B) and plan(B) with a fresh copy of the options must agree on B.
+func planHistoryIndependence(w *cq.Writer, rng *rand.Rand, n int) {
+	mk := func(k int, lo, hi int64, idBase uint64) []*planSeg {
+		segs := make([]*planSeg, k)
+		for i := range segs {
+			live := lo + rng.Int63n(hi-lo+1)
+			full := live
+			if rng.Intn(3) == 0 {
+				full += rng.Int63n(live/4 + 2)
+			}
+			segs[i] = &planSeg{id: idBase + uint64(i), full: full, live: live}
+		}
+		return segs
+	}
+	for i := 0; i < n; i++ {
+		var shared *mergeplan.Options
+		var fresh *mergeplan.Options
+		if i%3 != 0 {
+			o := planGenOpts(rng, 0)
+			if !planSane(&o) || o.TierGrowth < 2 {
+				continue
+			}
+			c := o
+			shared, fresh = &o, &c
+		}
+		eff := mergeplan.DefaultMergePlanOptions
+		if shared != nil {
+			eff = *shared
+		}
+		half := eff.MaxSegmentSize / 2
+		if half < 8 {
+			continue
+		}
+		// B: many small segments (at or below the floor); A: fewer, larger ones (above the floor)
+		bl := eff.FloorSegmentSize
+		if bl < 1 {
+			bl = 1
+		}
+		if bl >= half {
+			bl = half - 1
+		}
+		B := mk(20+rng.Intn(40), 1, bl, 1)
+		alo := eff.FloorSegmentSize + 1 + rng.Int63n(half/4+1)
+		if alo >= half {
+			alo = half - 1
+		}
+		A := mk(5+rng.Intn(20), alo, half-1, 1000)
+		var wantFresh *mergeplan.MergePlan
+		if shared != nil {
+			wantFresh = planCall(B, fresh, false).plan
+		}
+		r1 := planCall(B, shared, false)
+		planCall(A, shared, false)
+		r2 := planCall(B, shared, false)
+		w.OracleEval(1)
+		input := map[string]interface{}{"options": fmt.Sprintf("%+v", eff), "nil_options": shared == nil, "B": planMetaSegs(B), "A": planMetaSegs(A)}
+		if !planSameTasks(r1.plan, r2.plan) || (shared != nil && !planSameTasks(r1.plan, wantFresh)) {
+			w.OracleFail("plan-depends-on-history", "Plan(B) differs after Plan(A) was called with the same *Options (or nil options)", input)
+		}
+		w.Count("history_independence_triples", 1)
+	}
 }
